@@ -82,5 +82,8 @@ func verifHarness_C14_LockPile() {
 		})
 	}
 	rt.WaitAll()
+	for k := range locks {
+		rt.AssertUnlocked(&locks[k].m, "every mutex is released once all piles have been emptied")
+	}
 	rt.AssertNoLocksHeld("all mutexes released")
 }
